@@ -19,7 +19,7 @@ From BB Require Import BN Brute SpaceFacts TrapFacts PercolateFacts AttractorFac
   Strict PetriNet Control Meta FilterFacts PetriNetFacts TrappistFacts DiagramStruct DiagramSem1 DiagramCache
   DiagramDepth DiagramComplete Termination ControlFacts MetaFacts Candidates StrictFacts MinExpandFacts CandidatesFacts SymbolicTest SymbolicTestFacts Signed ReductionFacts ControlFacts2 Main Blocks BlocksFacts ObsFacts OwnerFacts CandidatesTerm
   PartialOwner BlockMath BlockComplete ASeeds ASeedsFacts LogChecks SkipRule SkipRuleFacts Names NamesFacts Perm PermFacts SCC SCCFacts SCCStruct ControlFacts3 SCCTerm FilterSym Main2 StrategyFacts ControlFacts4 SkipRuleFacts2 SCCComplete SCCAttr BlockComplete2 ControlFacts5 Iso SkipSem ControlFacts6.
-From BB Require Import PyLibCore PySrcCore PySrcCoreFacts PyLibCore2 PySrcCore2 PySrcCore2Facts PyLib PyLibSd PyLibCore PyLibSd2 PySrcSdBase PySrcSdMin PySrcSdMinFacts.
+From BB Require Import PyLibCore PySrcCore PySrcCoreFacts PyLibCore2 PySrcCore2 PySrcCore2Facts PySrcInitFacts PyLib PyLibSd PyLibCore PyLibSd2 PySrcSdBase PySrcSdMin PySrcSdMinFacts.
 
 (* translator tie: the functions GENERATED from the current text of SuccessionDiagram.skip_to_minimal / skip_remaining (PySrcCore2.v) compute the model's skip_to_minimal_t / skip_remaining under the class invariant and the tape contract *)
 Theorem C05_source_skip_to_minimal : forall (fuel : nat) (N : net) (cfg : config) (pnc : nat -> bool) (w : pyst) (i : nat) (tape : list space), CoreInv N w -> i < size (p_sd w) -> perm_of tape (min_traps_b N (n_space (get (p_sd w) i))) = true -> S (size (fst (skip_to_minimal_t N (p_sd w) i tape))) < fuel -> exists (w' : pyst) (b : bool), py_skip_to_minimal fuel N cfg pnc w tape i = CRet w' b /\ p_sd w' = fst (skip_to_minimal_t N (p_sd w) i tape) /\ snd (skip_to_minimal_t N (p_sd w) i tape) = RBool b /\ CoreInv N w'.
